@@ -509,10 +509,10 @@ class NestGen:
 
 # ------------------------------------------------------------------------------------------------ keep programs
 MAXH = 8
-KINDS = 'altkrqucs'
+KINDS = 'altkrqucsw'       # w: the table of a Thread object other than the running thread (set(t, key, obj) on `var t = new(Thread, f)`)
 SEQ_KINDS = 'aluc'
 class KeepGen:
-    """containers (every kind that declares Mark, Ref/Box chains, thread-local storage) as the SOLE path to collector-managed
+    """containers (every kind that declares Mark, Ref/Box chains, thread-local storage, a Thread object's table) as the SOLE path to collector-managed
     objects; allocation pressure / forced collections; every element read back.  Emits into the same op file as Gen."""
     def __init__(self, rng, emit, serial0=0):
         self.r = rng; self.emit = emit
@@ -586,13 +586,14 @@ class KeepGen:
         elif x < 0.84: self.pressure()
         elif x < 0.88: self.shrink(h)
         elif x < 0.92 and o['kind'] in 'tk': self.emit('hreserve', h, r.randrange(max(1, self.size(h)), 300))
+        elif x < 0.92 and o['kind'] == 'w': self.emit('hrun', h)
         elif x < 0.96: self.kill(h)
         else: self.bad()
     def kill(self, h):
         del self.h[h]; self.emit(self.r.choice(['hdrop', 'hdel']), h)
     def bad(self):
         """outside the contract: every build and the model refuse it identically"""
-        r = self.r; k = r.randrange(7)
+        r = self.r; k = r.randrange(8)
         dead = next((i for i in range(MAXH) if i not in self.h), None)
         live = list(self.h)
         if k == 0 and dead is not None: self.emit('hread', dead)
@@ -601,6 +602,7 @@ class KeepGen:
         elif k == 3: self.emit('hchurn', 401)
         elif k == 4 and live: self.emit('hput', r.choice(live), 0, 0 if self.serial else 5000, 1)
         elif k == 5: self.emit('hnew', 9, 't')
+        elif k == 6 and live: self.emit('hrun', r.choice(live))      # refused unless the holder is a Thread object (then it simply runs)
         else: self.emit('hnew', 1, 'z')
     def scenario(self, kind):
         """the directed shape: fill one container so that it is the only path to its objects, allocate until the collector has run
@@ -613,12 +615,16 @@ class KeepGen:
         self.emit('hread', h)
         self.pressure(); self.pressure()
         self.emit('hread', h)
+        if kind == 'w' and r.random() < 0.7:
+            # started later: the thread reads what main stored in its table; afterwards it is again a Thread object that is not running
+            self.emit('hrun', h); self.pressure(); self.emit('hread', h)
         for _ in range(r.randrange(0, n // 2 + 1)): self.remove(h)
         if r.random() < 0.5 and kind in 'tk': self.emit('hreserve', h, r.randrange(max(1, self.size(h)), 200))
         if r.random() < 0.4: self.shrink(h)
         for _ in range(r.randrange(0, 8)): self.put(h)
         self.pressure()
         self.emit('hread', h)
+        if kind == 'w': self.emit('hrun', h)
         if self.size(h): self.emit('hget', h, self.pick_elem(h))
         if r.random() < 0.6: self.kill(h)
 
@@ -648,13 +654,13 @@ class C18(Spec):
                   'C18_static_header_matches_struct are decided over tables regenerated from /repo on every run (every #if CELLO_*_CHECK, '
                   '#ifndef CELLO_NGC and #if CELLO_CACHE block, struct Header, the CelloObject literal), so a source change that puts a needed '
                   'side effect under a switch breaks the build of the theorem. Optimisation levels are not modelled: they are compared. '
-                  'Keep programs (containers of every kind that declares Mark, Ref/Box chains, thread-local storage as the SOLE path to '
+                  'Keep programs (containers of every kind that declares Mark, Ref/Box chains, thread-local storage, the table of a Thread object held in a variable — not started, or started and joined later — as the SOLE path to '
                   'collector-managed objects): C18_keep_config_independent — any two configurations compute the same outcomes on every such '
                   'program, whenever and however often either collector ran (C18_keep_collection_schedule_irrelevant); '
                   'C18_collect_preserves_reachable — GC_Mark;GC_Sweep (the marker of Cello/Heap.lean, proved complete in C01, run on what each '
                   'Mark instance presents) keeps every block reachable through what the containers HOLD; C18_mark_covers_container — every Mark '
                   'instance covers everything its container holds, stated over the loop bound of Table_Mark and the Mark texts regenerated from '
-                  '/repo (C18_mark_functions_as_modelled), so a Mark function that skips slots or items breaks the build of the theorems. '
+                  '/repo (C18_mark_functions_as_modelled; C18_thread_table_as_modelled for Thread_New/Del/Get/Set/Mem/Rem; C18_thread_table_mark_needed), so a Mark function that skips slots or items, or a Thread_Mark that presents only the marking thread`s table, breaks the build of the theorems. '
                   'Guards over the allocation class: every `if (cond) throw` inside #if CELLO_*_CHECK is regenerated as a term (CelloGen.Cfg.guards: '
                   'function, macro, condition as GExpr over header(self)->alloc, exception) together with the class every header_init site stamps '
                   '(stamps) and the enum values; the model evaluates exactly these terms on the header class of the object each guarded function '
@@ -676,13 +682,13 @@ class C18(Spec):
             'objects, embedded in the outer storage and edited in place through get(): push, pop, pop_at, set, concat, resize, rem of the inner object), '
             'hash, show, print_to formats, Float, range/slice/reverse/enumerate/zip/filter/map views, forced '
             'collections, heap Tuples whose items only the Tuple references, probe types implementing 17 of the 18 cached classes queried in '
-            'random orders cold and warm, dropped rings of Boxes owning each other followed by allocation churn; keep programs `h…`: holders of nine kinds — Array/List '
+            'random orders cold and warm, dropped rings of Boxes owning each other followed by allocation churn; keep programs `h…`: holders of ten kinds — Array/List '
             'of Ref, Table and Tree with the pointer in the value (Int->Ref) or in the key (KCell->Int), heap Tuple, Ref/Box chain through the last word of a '
-            'plain struct, thread-local storage — each the only path to its Tracked objects, filled (maps with keys whose home slots lie beyond the item '
+            'plain struct, thread-local storage, the table of a Thread object that is not the running thread (`var t = new(Thread, f); set(t, key, obj)`; `hrun`: call(t); join(t) — the started thread reads every entry through get(current(Thread), key)) — each the only path to its Tracked objects, filled (maps with keys whose home slots lie beyond the item '
             'count, colliding keys, rehash by resize), put under allocation pressure and forced collections, every element read back (serial, payload, type) '
             'after removals with and without del, shrinking and clearing; a destructor ledger audited after every operation: no stored object finalised, none '
             'twice, del finalises at once), seven profiles (mixed, sequences, maps with colliding keys, '
-            'allocation churn with dropped objects, views, tuples, keep, edits; every case starts with one directed keep scenario (the nine kinds in rotation), '
+            'allocation churn with dropped objects, views, tuples, keep, edits; every case starts with one directed keep scenario (the ten kinds in rotation), '
             'one directed edit scenario (a String made by new / new_raw / new_root in rotation, a String Array or List, a String Table or Tree, every selector '
             'twice) and one nested holder (outer x inner kinds in rotation)), ~2% '
             'deliberately out-of-contract operations that every build and the model must refuse identically. Each file runs on the default '
@@ -696,7 +702,7 @@ class C18(Spec):
                     'keep programs: Cello/Heap.lean (marker, C01) and Cello/Table.lean (slot placement, C02) are imported as they are; the model collects when ITS registry count passes the threshold, the real collector at other moments (the registry also holds the rest of the workload): C18_keep_collection_schedule_irrelevant is what bridges the two; Tree shape is not modelled (Tree_Mark = in-order walk over all nodes)')
     assumptions = ('in-contract programs only: every operation is validated against the harness shadow first; bad index, absent key, wrong element type, dead handle are refused before the call',
                    'known-finding territory avoided: Table/Tree equality and hashing (F06), Slice with stop/step (F11), Zip backward (F12), repeated pointers in Tuples (F13), del while the collector is stopped (F23), Box elements (F28), print_to error paths (F29)',
-                   'single thread; no allocation failure; String values <= 30 bytes, containers <= 120 elements',
+                   'single thread, except `hrun`: one started thread at a time that only reads, while the main thread waits in join (no collection of the main thread`s collector while another thread runs: the unsynchronised walk of a running thread`s table is known finding KF-C13-mark-foreign-tls); no allocation failure; String values <= 30 bytes, containers <= 120 elements',
                    'in-place edits: text [0-9A-Za-z_]*, results <= 30 bytes, print_to position within the text; keys of a Table/Tree are only rewritten with their own value (anything else breaks the map and is out of contract); stack and static Strings are never edited (not defined: their buffer is not a malloc block; that the guards fire there is theorem C18_alloc_guards_classify, the behaviour itself belongs to C12/C19)',
                    'nested holders: <= 8 holders x 12 inner objects x 24 items; embedded Tuples hold built-in Type objects only (static, never freed: known finding KF-C01-dangling-tuple-item avoided) and no object twice (F13); inner containers only shrink by resize',
                    'keep programs: non-negative Int keys <= 10^6, no overwriting of an existing key, at most 8 holders x 120 elements, each Tracked object stored in exactly one place (no sharing, no cycles), Box only as a chain link (F28); released objects are never required to be collected (conservative stack scan)',
@@ -763,6 +769,8 @@ class C18(Spec):
         if m:
             for k, g in (('impl_keep_ops', 1), ('impl_keep_reads', 2), ('impl_keep_high_slot_entries_read', 3), ('impl_tracked_objects', 4)):
                 acc[k] = acc.get(k, 0) + int(m.group(g))
+        m = re.search(r' thread-runs=(\d+)', c_out)
+        if m: acc['impl_thread_holder_runs'] = acc.get('impl_thread_holder_runs', 0) + int(m.group(1))
         m = re.search(r' edits=(\d+) elem-edits=(\d+) nested-ops=(\d+)', c_out)
         if m:
             for k, g in (('impl_inplace_edits', 1), ('impl_inplace_edits_on_embedded_elements', 2), ('impl_nested_holder_ops', 3)):
